@@ -1280,7 +1280,8 @@ class StmtMixin(object):
         """path pruning: False only when the path condition is refuted.  Quantified hypotheses (axioms, invariants) are left out
         unless full=True: leaving hypotheses out can only keep more paths (sound), and keeps these checks fast."""
         s = z3.Solver(); s.set('timeout', 2000 if not full else 1500)
-        s.add(*[f for f in st.pc if full or not _has_quantifier(f)])
+        from .solve import guarded
+        s.add(*guarded([f for f in st.pc if full or not _has_quantifier(f)]))      # (nth on lists of str: see solve.guard_nested_nth)
         return s.check() != z3.unsat
 
     def st_Raise(self, s, st):
@@ -2106,6 +2107,9 @@ class CallMixin(object):
                     n = z3.Length(r.z)
                     st.pc += [z3.Length(l2) == n + 1, l2[n] == x] + [z3.Implies(n > j, l2[j] == r.z[j]) for j in range(4)]
                     st.pc += [z3.Implies(n == j, l2[j] == x) for j in range(4)]
+                    i_ = z3.Int('i!app')
+                    try: st.pc.append(z3.ForAll([i_], z3.Implies(z3.And(0 <= i_, i_ < n), l2[i_] == r.z[i_]), patterns=[l2[i_]]))      # the old positions keep their items (for the matcher)
+                    except z3.Z3Exception: pass
                 return [(NONE, st)]
             if name == 'extend':
                 src = d[0]
